@@ -10,4 +10,7 @@ cp /repo/go.sum "$here/sim/go.sum" 2>/dev/null
 cd "$here/sim" || exit 1
 "$GO" build -o "$here/.build/simcheck" ./cmd/simcheck || exit 1
 "$GO" test -c -o "$here/.build/props.test" ./props || exit 1
+# warm the -race build cache (standard library with race instrumentation) for C13
+"$GO" test -c -race -o "$here/.build/props-racewarm.test" ./props || exit 1
+rm -f "$here/.build/props-racewarm.test"
 echo "setup ok"
